@@ -304,6 +304,7 @@ func TestCheck(t *testing.T) {
 		res := faults.Run(t, cs, baseOpts(), helloH2, func(env *faults.Env) {
 			rep.Add("evaluations", 1)
 			rep.Note("distinct_nontrivial", fmt.Sprintf("%s/%s/ops=%d/bytes=%d", cs.Kind, cs.Proto, env.Ops, env.Bytes))
+			rep.Sample(map[string]any{"case": cs.String(), "server_io_ops_on_victim_conn": env.Ops, "victim_bytes_on_wire": env.Bytes})
 			if msg := control(env.St, "x"); msg != "" {
 				rep.Violate(map[string]any{"kind": "proxy-broken-after-case", "case_kind": cs.Kind, "proto": cs.Proto}, map[string]any{"case": cs},
 					"after case %s: %s", cs, msg)
@@ -339,6 +340,7 @@ func TestCheck(t *testing.T) {
 			synctest.Wait()
 			rep.Add("evaluations", 1)
 			rep.Note("distinct_nontrivial", id)
+			rep.Sample(map[string]any{"case": id})
 			by.SendH2(3, bubble.Req{Path: "/by2", Host: "localhost"})
 			synctest.Wait()
 			if len(st.Backend.ByPath("/by2")) != 1 {
